@@ -20,6 +20,12 @@ CHECKS = {
                 text='For the 24 int->float, 24 float->int and 2 float<->float functions: int->float is RN_F(s-off)*2^-(b-1) with a bit-exact power-of-two scale; '
                      'float->int is trunc(s*2^(b-1))+off for every s in [-1,1) with no saturation and in-range wrappers; both profiles.',
                 note=TB + '; IEEE-754 exactness of power-of-two scaling and correct rounding of casts; inputs in the documented domain [-1,1).'),
+    'C15': dict(level='proof', ref='DESIGN.md §5 C15',
+                technique='path-sensitive interval x congruence abstract interpretation over MIR, plus item-table rules (consts, derives)',
+                text='For the eight custom-width types, in debug and release MIR: constants describe the 2^bits range; new() is Some exactly on [MIN,MAX]; '
+                     'From<Rep> terminates and wraps into range congruent mod 2^bits; widening From impls preserve the value; Add/Sub/Mul (and Neg where a signed type '
+                     'implements it) return in-range values congruent to the exact result (release) or the exact result / panic only on overflow (debug), for ALL operand pairs.',
+                note=TB + '; two\'s-complement wrap of the backing integer when overflow checks are off.'),
 }
 
 NOT_YET = 'check not implemented yet in this revision of /verif (see DESIGN.md §10 build order)'
